@@ -123,8 +123,9 @@ impl Scenario for C07 {
             "medium_clean",
             "reader_default_ctor",
             "big_streams_default_ctor",
+            "runs_with_tight_message_max_len",
         ];
-        e.crate_probes = vec!["term_clean_eos", "term_partial_header", "term_short_record", "term_shortlen", "results_parse_err"];
+        e.crate_probes = vec!["term_clean_eos", "term_partial_header", "term_short_record", "term_shortlen", "term_oversize", "results_parse_err"];
         e.step_keys = vec!["source_calls", "reader_calls"];
         e
     }
@@ -208,8 +209,8 @@ impl Scenario for C08 {
             "no ErrorKind::Interrupted: C08 quantifies over Pending / Ready(k) only and futures' read_exact does not retry it".into(),
             "the reference is the real blocking reader (C07 decides that one separately)".into(),
         ];
-        e.harness_probes = vec!["runs_with_pending", "exec_spurious_polls", "exec_double_wakes", "runs_multi_task", "source_early_eof", "exec_wake_events", "big_streams_default_ctor"];
-        e.crate_probes = vec!["records_expected"];
+        e.harness_probes = vec!["runs_with_pending", "exec_spurious_polls", "exec_double_wakes", "runs_multi_task", "source_early_eof", "exec_wake_events", "big_streams_default_ctor", "runs_with_tight_message_max_len"];
+        e.crate_probes = vec!["records_expected", "term_clean_eos", "term_partial_header", "term_short_record", "term_shortlen", "term_oversize"];
         e.step_keys = vec!["source_calls", "exec_steps"];
         e
     }
